@@ -64,7 +64,14 @@ var shapeTable = map[string]Shape{
 	"x.sub.example.com.|1": {Extra: true, AnsCached: true}, // referral: glue (a new key)
 	"wrr.example.com.|1":   {Ans: true, Weighted: true, AnsCached: true},
 	"other.org.|1":         {Refused: true},
-	"example.com.|6":       {Ans: true, AnsCached: true}, // SOA
+	// NS / MX sets with one target that needs a weighted draw (OR over all targets)
+	"d1.example.com.|2":  {Weighted: true, AnsCached: true},
+	"d2.example.com.|2":  {Weighted: true, AnsCached: true},
+	"d3.example.com.|2":  {Weighted: true, AnsCached: true},
+	"m1.example.com.|15": {Weighted: true, AnsCached: true},
+	"m2.example.com.|15": {Weighted: true, AnsCached: true},
+	"m3.example.com.|15": {Weighted: true, AnsCached: true},
+	"example.com.|6":     {Ans: true, AnsCached: true}, // SOA
 }
 
 // hasMap: names for which the static part declares a resolver / ECS map; every other
